@@ -1,11 +1,11 @@
 SPECIFICATION GSpec
 CONSTANTS
-  Procs = {"c1", "c2"}
+  Procs = {"c1"}
   Hosts = {"a", "b", "c"}
   Size = 2
-  MaxCalls = 1
-  MaxExpire = 2
-  Kinds = {"lookup", "dial"}
+  MaxCalls = 3
+  MaxExpire = 1
+  Kinds = {"dial"}
   ZeroDuration = FALSE
   Faults = TRUE
 INVARIANTS TypeOK SizeBound ServedFreshAndSequential NoCrossHost RefinesSequential MissReturnsOwnAnswer Emit
